@@ -160,6 +160,10 @@ def call_resolution(w, e, r, rest, args, kwargs, s):
 def call_on_value(w, e, recv, mname, args, kwargs, s):
     from . import tables
 
+    if recv[0] == "enum" and len(recv) == 3:
+        m = w.prog.find_method(recv[1], mname)
+        if m is not None and m[0] == "repo":
+            return apply_repo(w, e, m[1], None, (recv,) + tuple(args), kwargs, s)
     if recv[0] == "obj" and len(recv) == 3:
         m = w.prog.find_method(recv[1], mname)
         if m is not None and m[0] == "repo":
@@ -563,7 +567,7 @@ def _is_callable_term(t):
         return False
     if len(t) == 2 and t[0] == "global" and t[1].startswith(("func:", "class:", "ext:", "builtin:")):
         return True
-    if t[0] == "closure" or (t[0] in ("gen", "nt") and len(t) == 3) or t[0] == "excobj":
+    if t[0] == "closure" or (t[0] in ("gen", "nt", "enum") and len(t) == 3) or t[0] == "excobj":
         return True
     if len(t) == 2 and t[0] == "global" and t[1].startswith("const:"):
         return True  # a module constant (a record, a table, a compiled pattern): specialise on it
